@@ -154,6 +154,11 @@ int c_var2h(int nvalvar, int nvalh,
             /* Loop */
             varindex++;
             if(varindex+1>=nvalvar) {
+                /* No more data. The period is incomplete if it
+                 * extends beyond the last observation */
+                if(t2<end)
+                    miss = 1;
+
                 break;
             }
 
